@@ -89,12 +89,19 @@ func SafeRun(e Engine, sc any, keep bool) (out Outcome) {
 	return e.Run(sc, keep)
 }
 
+// Shrinking is true while candidate scenarios of the minimiser run: an engine may then treat
+// an ill-formed candidate (e.g. a generated program that no longer parses) as "does not fail"
+// instead of as harness trouble.
+var Shrinking bool
+
 // Minimise shrinks a failing scenario while the same oracle still fails and no known
 // finding explains it.
 func Minimise(e Engine, sc any, fail *Failure, maxAttempts int, maxDur time.Duration) (any, *Failure, int) {
 	start := time.Now()
 	attempts := 0
 	cur, curFail := sc, fail
+	Shrinking = true
+	defer func() { Shrinking = false }()
 	for {
 		changed := false
 		for _, cand := range e.Shrink(cur) {
